@@ -136,6 +136,7 @@ class CallMixin:
         key = f.node
         if self.call_stack.count(key) >= self.rec_limit:
             self.recursion_cut.add(f.fi.fq if f.fi else f.name)
+            self.rec_cut_args.extend(fr.locals.values())
             return TNode("$Rec", {"func": Cst(f.fi.fq if f.fi else f.name), "args": PList(list(fr.locals.values()))}, self.cur_site)
         if len(self.call_stack) > MAX_DEPTH:
             raise AnalysisError(f"call depth exceeded in {f!r}")
@@ -234,12 +235,16 @@ class CallMixin:
         from .vals import Lowered
 
         counter = None
+        n_reads = len(self.vol_reads)
         if isinstance(cnt_getter, Func):
             try:
                 counter = self.invoke(cnt_getter, [], {}, node) if cnt_getter.bound_self is None else self.invoke(cnt_getter, [], {}, node)
             except Raised:
                 counter = Unknown("raises")
-        lw = Lowered(branch, guard={"counter": counter, "flag_getter": flag_getter, "site": self.site_of(node, fr)})
+        # _iter_branch polls the getter before every statement: it must read the counter when called,
+        # not return a value captured earlier
+        live = not isinstance(counter, (SVal, SColl)) or any(r is counter for r in self.vol_reads[n_reads:])
+        lw = Lowered(branch, guard={"counter": counter, "flag_getter": flag_getter, "site": self.site_of(node, fr), "live": live})
         self.lowered.append(lw)
         if isinstance(dst, PList):
             item = Splice(lw)
@@ -549,7 +554,9 @@ class CallMixin:
         seq = self.concrete_seq(args[0])
         if seq is not None and all(isinstance(i, Cst) for i in seq):
             return PList(sorted(seq, key=lambda c: c.value))
-        return args[0]
+        if seq is not None and len(seq) <= 1:
+            return PList(list(seq))
+        return StrOp("sorted", [args[0]])
 
     def bi_callable(self, args, kwargs, node, fr):
         return Cst(isinstance(args[0], (Func, RepoCls, AstCls, Ext, BoundBuiltin)))
